@@ -1,6 +1,9 @@
 """Per-property manifest texts (level, note, technique). Source of /verif/MANIFEST.json via tools/gen_manifest.py."""
 
-TOL_NOTE = " Every check also runs the tolerance census T-tol over the property's anchor modules: a tolerance comparison (allclose / isclose / array_equiv) in a decision position must be in the reviewed table."
+TOL_NOTE = (" Every check also runs the tolerance census T-tol over the property's anchor modules: a tolerance comparison (allclose / isclose / array_equiv) in a decision position must be in "
+            "the reviewed table. All rules are decided on the canonical program (kv/canon.py, DESIGN.md section 11): private helpers used once (or small ones used a few times) are written out "
+            "at their call sites, single-assignment temporaries are resolved where that cannot change the order of effects, early exits / negated tests / keyword arguments are brought "
+            "into one form, and the remaining locals are matched by placeholders - so that a rule decides what a function does, not how it is written down.")
 NOT_YET = "no check registered yet in this revision of /verif (static rules for it are designed in DESIGN.md but not armed)"
 
 NOT_APPLICABLE = {
